@@ -239,3 +239,24 @@ Proof.
   apply Cdiv_series; [exact HIj | exact HI'j |].
   apply final_alg; [exact HV | exact Ej].
 Qed.
+
+Lemma loads_sum_proof m gnd h n (Z0 : matR) j (z1 z2 : CR) i k : square n Z0 ->
+  mnth (load_matrix m gnd h Z0 [mkLoad j z1; mkLoad j z2]) i k =
+  mnth (load_matrix m gnd h Z0 [mkLoad j (cadd z1 z2)]) i k.
+Proof.
+  intros Hsq. rewrite !(mnth_load_matrix m gnd h n) by exact Hsq.
+  destruct (Nat.eqb i k); [|reflexivity]. f_equal.
+  cbn [load_sum l_idx l_z]. destruct (Nat.eqb j i && Nat.ltb i n)%bool.
+  - rewrite load_diag_additive.
+    generalize (load_diag m (gnd i) h z1 (Z.of_nat i)) (load_diag m (gnd i) h z2 (Z.of_nat i)). cx_ring.
+  - cx_ring.
+Qed.
+
+Lemma zero_load_noop_proof m gnd h n (Z0 : matR) j i k : square n Z0 ->
+  mnth (load_matrix m gnd h Z0 [mkLoad j c0]) i k = mnth Z0 i k.
+Proof.
+  intros Hsq. rewrite (mnth_load_matrix m gnd h n) by exact Hsq.
+  destruct (Nat.eqb i k); [|reflexivity].
+  cbn [load_sum l_idx l_z]. rewrite load_diag_0.
+  destruct (Nat.eqb j i && Nat.ltb i n)%bool; generalize (mnth Z0 i k); cx_ring.
+Qed.
